@@ -498,13 +498,18 @@ uint StringDictionaryPFC::searchPrefix(uchar **ptr, uint scanneable,
     if (sharedCurr == strLen)
       break;
     else {
+      // No string of the bucket is prefixed by str: NORESULT (the callers test it)
       id++;
-      if ((cmp > 0) || (id > scanneable))
+      if ((cmp > 0) || (id > scanneable)) {
+        id = NORESULT;
         break;
+      }
 
       *ptr += VByte::decode(&sharedPrev, *ptr);
-      if (sharedPrev < sharedCurr)
+      if (sharedPrev < sharedCurr) {
+        id = NORESULT;
         break;
+      }
       decodeNextString(ptr, sharedPrev, decoded, decLen);
     }
   }
